@@ -25,9 +25,10 @@ ValLists == SeqsUpTo(Vals, MaxList)
 Idxs == (0 - (MaxEnt + 1))..MaxEnt
 V0 == CHOOSE v \in Vals : TRUE
 PairSrcs == {<<>>} \cup {<< <<k, <<v>>>> >> : k \in Keys, v \in Vals}
-            \cup {<< <<k1, <<v1>>>>, <<k2, <<v2>>>> >> : k1 \in Keys, k2 \in Keys, v1 \in Vals,
+            \cup {<< <<k1, <<v1>>>>, <<k2, <<v2>>>> >> : k1 \in Keys, k2 \in Keys,
+                                                      v1 \in IF SrcMode = "small" THEN {V0} ELSE Vals,
                                                       v2 \in IF SrcMode = "small" THEN Vals \ {V0} ELSE Vals}
-ListSrcs == {<< <<k, vs>> >> : k \in Keys, vs \in ValLists}
+ListSrcs == {<< <<k, vs>> >> : k \in Keys, vs \in IF SrcMode = "small" THEN {vs \in ValLists : Len(vs) # 1} ELSE ValLists}
             \cup IF SrcMode = "small" THEN {}
                  ELSE {s \in {<< <<k1, vs1>>, <<k2, vs2>> >> : k1 \in Keys, k2 \in Keys, vs1 \in ValLists, vs2 \in {<<>>} \cup {<<v>> : v \in Vals}} : s[1][1] # s[2][1]}
 SrcArgs == {[A0 EXCEPT !.src = s, !.form = "pairs"] : s \in PairSrcs}
